@@ -321,7 +321,12 @@ def call(fn, desc, arrays, kw, backend):
     try:
         with warnings.catch_warnings():
             warnings.simplefilter("ignore")
-            r = common.with_alarm(30, f, desc, *[np.array(a) for a in arrays], backend=backend, **kw)
+            try:
+                r = common.with_alarm(30, f, desc, *[np.array(a) for a in arrays], backend=backend, **kw)
+            except common.Timeout:
+                # a machine under heavy load (page faults count as CPU time of the process): once more with a generous limit - a
+                # call that really does not end runs into it again
+                r = common.with_alarm(240, f, desc, *[np.array(a) for a in arrays], backend=backend, **kw)
         return ("ok", [np.asarray(x) for x in (r if isinstance(r, tuple) else (r,))])
     except BaseException as e:  # noqa: BLE001
         return ("exc", common.classify_exc(e), common.exc_site(e), str(e)[:200])
